@@ -1,6 +1,58 @@
 import Sqljson.Lemmas.LexReject
 /-!
-# C04b — token-level completeness of the lexer (placeholder header)
+# C04b — every malformed token is rejected: exact characterisation of what the lexer accepts
+
+C04 (`Props/C04.lean`) proves that `Parse` never panics and rejects NUL / invalid UTF-8; C03b proves
+that every permitted spelling of a token lexes to that token.  Missing was the converse — "nothing else
+is accepted" — which DESIGN §6 left to enumeration.  This file states it, token kind by token kind, for
+the model `Model/Lex.lean` of `path/parser/lex.go`, as *if and only if* theorems over ALL inputs (any
+unread source, NUL and undecodable bytes included; any lexer state; any oracle instance unless a
+hypothesis is named), and lifts the rejections to `Parse.parse`.  Lemma layer: `Lemmas/LexReject.lean`.
+
+## What is proved
+
+1. **Numbers** — `number_token_iff`, `number_error_iff`, `number_after_dot_iff`: `scanNumber` returns an
+   integer / numeric token with text `t` and stops before the rune `y` iff `t` is a number text
+   (`NumForm`: decimal digit groups with single underscores between digits and no leading zero; `0x` /
+   `0o` / `0b` with a digit group of the base; fractions `d.`, `d.d`, `.d`; exponents) and `y` obeys
+   the follower rule `Follower` ("trailing junk", `follower_simple`) — or, the one oddity of the Go
+   lexer, `t` is a radix prefix with ANY digit/underscore run and `.` follows (`LooseRadix`: `0b2.`,
+   `0x1_.`; the parser then rejects the text).  Otherwise: the error token.  `number_is_reference_reading`:
+   the closed-form reading both sides are proved equal to.  `rejects_leading_zero`, `rejects_radix_underscore`,
+   `rejects_radix_without_digits`, `rejects_bad_digit_group`, `rejects_trailing_junk`: rejection whatever
+   follows.  `1.e5` is a number, `1..2` is two tokens (`1.` `.2`, a syntax error of the parser), `08` is
+   rejected by the lexer.
+2. **String literals, `$"…"`, escapes, bare identifiers** — `string_literal_iff` & co.: accepted iff the
+   source is a body of plain characters and well-formed escapes (`\b \f \n \r \t \v`, `\xHH` ≠ 0, `\uHHHH` ≠ 0,
+   `\u{H…}` 1–6 digits ≤ 10FFFF ≠ 0, surrogates only as a high–low pair of two `\u` escapes of either
+   form, backslash + any other character) closed by `"` before the end of the input / a raw newline /
+   NUL / a bad byte; `refused_iff`: the rejection normal form; `bad_escape_*`: every malformed escape.
+   `ident_iff`: the same for bare identifiers (a backslash starts and continues an identifier).
+3. **Comments** — `comment_loop_exact`: `/*` is closed by the FIRST `*/` provided no NUL / bad byte comes
+   before it; otherwise error; `/*/` is not closed, `/**/` is.
+4. **Single characters** — `first_character_decides`, `start_classes`, `operator_table`, `unk_iff`: which
+   runes start which token; every other rune is the token `$unk` (NOT a lexer error) which no grammar
+   rule accepts; the private-use runes U+E000…U+E032 are lexer errors.
+5. **Lift to `Parse`** — `parse_rejects_malformed_number`, `parse_rejects_malformed_string_after_separator`,
+   `rejects_unterminated_comment`, `rejects_other_char_first`, …: such a token as the first token, after any
+   separator, gives `.err`; `accepted_has_no_lex_error`, `lex_error_anywhere_rejects`,
+   `error_after_separator_anywhere_rejects`, `parse_rejects_malformed_number_anywhere`,
+   `parse_rejects_malformed_string_anywhere`: the same at ANY token start the lexer reaches (an accepted
+   input has no lexing error anywhere in its token stream).
+
+## Not proved here
+
+* maximality as a separate statement ("no longer prefix of the source is a number text") — it is implied
+  by the follower rule but not stated;
+* that a `LooseRadix` text which is not an integer text is refused by `strconv.ParseInt` in general
+  (the parser step after the early return) — only the generic statement `parse_rejects_refused_integer_first`
+  and the instances `0b2.`, `0x1_.`;
+* a `$unk` token (a rune the grammar does not mention: `#`, `^`, `;`, a lone `=` …) is proved to reject the
+  input when it is the first token or the first after the mode; at other positions only evaluated samples
+  (`unk_in_other_positions_evaluated`) — it is not a lexer error, so the general-position theorems do not
+  apply, and "the parser never shifts `$unk`" is not proved;
+* the grammar level: that a sequence of well-formed tokens that is not a path is rejected is C03b's
+  `comparisons_do_not_associate` and C04's `parse_total`, not this file.
 -/
 
 /-! # Numbers -/
@@ -247,10 +299,13 @@ example (o : Oracles) (ok : RoundTrip.OrOK o) : parse o (utf8 "1a".toList) = .er
     have := ok.lowS 'a' (by decide)
     simp [numRef, refDecimal, refTail, refExp, takeRun, runCh, isDecimal, peekR, srcChar, chs, lowerBit,
       isIdentStart, this])
-example (o : Oracles) (ok : RoundTrip.OrOK o) : parse o (utf8 "/* c */ 0x1g".toList) = .err :=
+example (o : Oracles) (ok : RoundTrip.OrOK o) :   -- the text `/* c */ 0x1g`
+    parse o (utf8 ('/' :: '*' :: ([' ', 'c', ' '] ++ '*' :: '/' :: [' ']) ++ '0' :: ['x', '1', 'g'])) = .err :=
   parse_rejects_number_text o ok
-    (Sep.comment (body := " c ".toList) (by decide) (by decide) (Sep.ws (by decide) Sep.nil))
-    '0' (by decide) "x1g".toList (by
+    (Sep.comment (body := [' ', 'c', ' '])
+      (NoNul.cons (by decide) (NoNul.cons (by decide) (NoNul.cons (by decide) NoNul.nil))) (by decide)
+      (Sep.ws (by decide) Sep.nil))
+    '0' (by decide) ['x', '1', 'g'] (by
     have := ok.lowS 'g' (by decide)
     simp [numRef, refZero, refRadix, refTail, refExp, takeRun, runCh, isHex, isDecimal, peekR, srcChar, chs, lowerBit,
       isIdentStart, hasDigit, this])
@@ -262,12 +317,19 @@ example (o : Oracles) (s : LState) (hs : s.rest = chs ".e5".toList) :
   rw [hs, show numRef o '1' (chs ".e5".toList) = some (.numeric, "1.e5".toList, []) from rfl] at this
   exact this
 /-- `1..2` is NOT rejected by the lexer: it is the two tokens `1.` and `.2` (the first `.` ends the
-    number `1.`, which may be followed by `.`); the parser then reports a syntax error -/
-example (o : Oracles) (s : LState) (hs : s.rest = chs "..2".toList) :
-    scanNumber o '1' false [] s = ⟨.numeric, "1.".toList, some '.', withRest s (chs "2".toList)⟩ := by
-  have := scanNumber_ref o '1' (by decide) s
-  rw [hs, show numRef o '1' (chs "..2".toList) = some (.numeric, "1.".toList, chs ".2".toList) from rfl] at this
-  exact this
+    number `1.`, which may be followed by `.`); the parser then reports a syntax error.  Derived from
+    `number_token_iff`, right to left: `1.` is a `frac` text and `.` satisfies its follower rule. -/
+example (o : Oracles) (hdot : o.xidStart '.' = false) (s : LState) (hs : s.rest = chs ['.', '.', '2']) :
+    scanNumber o '1' false [] s = ⟨.numeric, ['1', '.'], some '.', withRest s (chs ['2'])⟩ := by
+  rw [number_token_iff o '1' (by decide) s .numeric _ _ _ (by decide)]
+  refine ⟨['.'], chs ['.', '2'], hs, rfl, rfl, ?_, Or.inl ⟨.frac, ?_, rfl, ?_⟩⟩
+  · exact (afterR_cons_ch s '.' _ (by decide)).symm
+  · exact NumForm.frac (i := ['1']) (f := ['.'])
+      (Or.inr ⟨⟨'1', [], rfl, (show isDecimal '1' = true from by decide), DigTail.nil⟩, by decide⟩)
+      ⟨[], rfl, Or.inl rfl⟩
+  · have h1 : isIdentStart o (some '.') = false := by simp [isIdentStart, hdot]
+    rw [show peekR (chs ['.', '2']) = some '.' from rfl]
+    exact ⟨rfl, h1, by decide, by simpa [show lowerBit '.' = '.' from by decide] using h1⟩
 /-- `0b2.`: the early return — the LEXER accepts `0b2` as an integer token because `.` follows … -/
 example (o : Oracles) (s : LState) (hs : s.rest = chs "b2.".toList) :
     scanNumber o '0' false [] s = ⟨.int, "0b2".toList, some '.', withRest s []⟩ := by
@@ -275,16 +337,49 @@ example (o : Oracles) (s : LState) (hs : s.rest = chs "b2.".toList) :
   rw [hs, show numRef o '0' (chs "b2.".toList) = some (.int, "0b2".toList, chs ".".toList) from rfl] at this
   exact this
 /-- … although `0b2` is not a number text: `2` is no binary digit -/
-example : ¬ NumberText "0b2".toList := by
+example : ¬ NumberText ['0', 'b', '2'] := by
   rintro ⟨k, h⟩
+  generalize ht : ['0', 'b', '2'] = t at h
   cases h with
-  | hex hx _ => rcases hx with h | h <;> cases h
-  | oct hx _ => rcases hx with h | h <;> cases h
+  | zero => cases ht
+  | dec _ hh => rw [← ht] at hh; exact hh rfl
+  | hex hx _ => injection ht with _ ht; injection ht with h1 _; rcases hx with h | h <;> rw [h] at h1 <;> cases h1
+  | oct hx _ => injection ht with _ ht; injection ht with h1 _; rcases hx with h | h <;> rw [h] at h1 <;> cases h1
   | bin _ hds =>
+    injection ht with _ ht; injection ht with _ h2
     obtain ⟨d, r, h, hd, _⟩ := hds
-    injection h with h1 _
-    subst h1
+    rw [h] at h2; injection h2 with h3 _
+    rw [← h3] at hd
     exact absurd hd.2 (by decide)
+  | frac _ hf =>
+    obtain ⟨ds, rfl, _⟩ := hf
+    have : '.' ∈ ['0', 'b', '2'] := by rw [ht]; simp
+    revert this; decide
+  | dotFrac _ => cases ht
+  | expInt _ he =>
+    obtain ⟨x, sg, ds, rfl, hx, _⟩ := he
+    have : x ∈ ['0', 'b', '2'] := by rw [ht]; simp
+    rcases hx with rfl | rfl <;> (revert this; decide)
+  | expFrac _ he =>
+    obtain ⟨x, sg, ds, rfl, hx, _⟩ := he
+    have : x ∈ ['0', 'b', '2'] := by rw [ht]; simp
+    rcases hx with rfl | rfl <;> (revert this; decide)
+
+/-- **after the early return**: if the first token is an integer literal whose text
+    `strconv.ParseInt(text, 0, 64)` refuses, `Parse` returns an error (`newInteger` records
+    "integer literal … is out of range") -/
+theorem parse_rejects_refused_integer_first (o : Oracles) (bytes : List UInt8) (t : List Char) (lx' : LState)
+    (hlex : Lex.lex o (LState.init bytes) = (.int, t, lx')) (ht : parseInt0 t = none) : parse o bytes = .err :=
+  parse_err_of_refused_int_first o bytes t lx' hlex ht
+
+/-- `0b2.`, `0x1_.`, `0o1__7.`: through the lexer (early return), refused by the parser -/
+example (o : Oracles) (ok : RoundTrip.OrOK o) :
+    parse o (utf8 "0b2.".toList) = .err ∧ parse o (utf8 "0x1_.".toList) = .err ∧
+    parse o (utf8 "0o1__7.".toList) = .err :=
+  ⟨parse_err_loose_radix_first o (ok.digitS '0' (by decide)) "b2.".toList "0b2".toList (chs ".".toList) rfl (by decide),
+   parse_err_loose_radix_first o (ok.digitS '0' (by decide)) "x1_.".toList "0x1_".toList (chs ".".toList) rfl (by decide),
+   parse_err_loose_radix_first o (ok.digitS '0' (by decide)) "o1__7.".toList "0o1__7".toList (chs ".".toList) rfl
+     (by decide)⟩
 
 /-! kernel-evaluated cross-checks of the same inputs on the ASCII oracle instance (`run`: parse, then print) -/
 theorem number_samples_evaluated :
@@ -293,6 +388,23 @@ theorem number_samples_evaluated :
     run "1a" = "ERR" ∧ run "0x1g" = "ERR" ∧ run "0b2." = "ERR" ∧ run "0x1_.type()" = "ERR" ∧
     run "0x1.type()" = "(1).type()" ∧ run "1_0" = "10" ∧ run "0X1F" = "31" ∧ run ".5e-1" = "0.05" := by
   decide +kernel
+
+#print axioms number_token_iff
+#print axioms number_error_iff
+#print axioms number_after_dot_iff
+#print axioms number_is_reference_reading
+#print axioms number_token_start
+#print axioms follower_simple
+#print axioms rejects_leading_zero
+#print axioms rejects_radix_underscore
+#print axioms rejects_radix_without_digits
+#print axioms rejects_bad_digit_group
+#print axioms rejects_trailing_junk
+#print axioms parse_rejects_malformed_number
+#print axioms parse_rejects_number_text
+#print axioms parse_rejects_malformed_number_anywhere
+#print axioms parse_rejects_refused_integer_first
+#print axioms number_samples_evaluated
 
 end C04b
 end Sqljson
@@ -841,6 +953,39 @@ theorem samples_accepted :
 end C04b
 end Sqljson
 
+/-! # Strings and variables after any separator, at any token position -/
+namespace Sqljson
+namespace C04b
+open Parse Lex ParseLemmas RoundTrip Layout LexReject LexReject.Str
+
+/-- a string literal that is not a well-formed body closed by `"`, as the first token after ANY
+    separator (blanks, tabs, newlines, closed comments), makes `Parse` return an error -/
+theorem parse_rejects_malformed_string_after_separator (o : Oracles) (ok : RoundTrip.OrOK o) (bytes : List UInt8)
+    {sep : List Char} (hs : Sep sep) (X : List Src) (hd : decodeAll bytes = chs sep ++ .ch '"' :: X)
+    (hbad : ¬ ∃ body val R, X = chs body ++ .ch '"' :: R ∧ SpellsStr body val) : parse o bytes = .err :=
+  parse_err_bad_string_sep o (ok.punctS '/' (by decide)) (ok.punctS '"' (by decide)) bytes hs X hd hbad
+
+/-- the same for `$"…"` -/
+theorem parse_rejects_malformed_variable_after_separator (o : Oracles) (ok : RoundTrip.OrOK o) (bytes : List UInt8)
+    {sep : List Char} (hs : Sep sep) (X : List Src) (hd : decodeAll bytes = chs sep ++ .ch '$' :: .ch '"' :: X)
+    (hbad : ¬ ∃ body val R, X = chs body ++ .ch '"' :: R ∧ SpellsStr body val) : parse o bytes = .err :=
+  parse_err_bad_variable_sep o (ok.punctS '/' (by decide)) (ok.punctS '$' (by decide)) bytes hs X hd hbad
+
+/-- … and at any later token start the lexer reaches (after `k` calls of `Lex` it stands before a
+    separator followed by the malformed literal) -/
+theorem parse_rejects_malformed_string_anywhere (o : Oracles) (ok : RoundTrip.OrOK o) (bytes : List UInt8) (k : Nat)
+    {sep : List Char} (hs : Sep sep) (X : List Src)
+    (hst : Misc.Standing (Misc.lexIter o k (LState.init bytes)) (chs sep ++ .ch '"' :: X))
+    (hbad : ¬ ∃ body val R, X = chs body ++ .ch '"' :: R ∧ SpellsStr body val) : parse o bytes = .err :=
+  parse_err_bad_string_at o (ok.punctS '/' (by decide)) (ok.punctS '"' (by decide)) bytes k hs X hst hbad
+
+#print axioms parse_rejects_malformed_string_after_separator
+#print axioms parse_rejects_malformed_variable_after_separator
+#print axioms parse_rejects_malformed_string_anywhere
+
+end C04b
+end Sqljson
+
 /-! # Comments, separators, single characters, general position -/
 /-!
 # C04b (part "Misc") — comments, separators, single characters: malformed forms are rejected by theorem
@@ -1277,3 +1422,44 @@ theorem unk_in_other_positions_evaluated :
 
 end C04b
 end Sqljson
+
+section
+open Sqljson.C04b
+#print axioms comment_loop_exact
+#print axioms comment_closes_at_first
+#print axioms comment_unterminated
+#print axioms comment_slash_after_opener
+#print axioms comment_empty
+#print axioms comment_first_close_wins
+#print axioms unterminated_comment_stops
+#print axioms separator_skipped
+#print axioms rejects_error_after_separator
+#print axioms rejects_unterminated_comment
+#print axioms rejects_unterminated_comment_text
+#print axioms first_character_decides
+#print axioms backslash_starts_identifier
+#print axioms start_classes
+#print axioms other_rune_is_unk
+#print axioms private_rune_is_error
+#print axioms operator_table
+#print axioms operator_start
+#print axioms solo_table
+#print axioms unk_iff
+#print axioms rejects_unk_first
+#print axioms rejects_mode_then_unk
+#print axioms rejects_other_char_first
+#print axioms rejects_other_char_first_text
+#print axioms rejects_private_rune_first
+#print axioms rejects_lone_operator_first
+#print axioms accepted_reaches_end
+#print axioms accepted_has_no_lex_error
+#print axioms lex_error_anywhere_rejects
+#print axioms error_at_any_token_start_rejects
+#print axioms error_after_separator_anywhere_rejects
+#print axioms unterminated_comment_anywhere_rejects
+#print axioms private_rune_anywhere_rejects
+#print axioms otherSamples_facts
+#print axioms rejects_sample_char
+#print axioms malformed_forms_evaluated
+#print axioms unk_in_other_positions_evaluated
+end
